@@ -105,7 +105,7 @@ def gen_dir(r):
     if c < 0.40:
         # within (and just around) 0.005 rad of +-z, both signs of x and y: the rotate() branch point
         s = r.choice([logu(r, 1e-9, 4.9e-3), r.uniform(1e-4, 4.99e-3), 0.005 * (1 + r.uniform(-1e-6, 1e-6)),
-                      r.uniform(0.005, 0.0051), 1e-12, 1e-160])
+                      r.uniform(0.005, 0.0051), 1e-12, 1e-140])
         phi = r.choice([r.uniform(0, 2 * math.pi), math.pi / 2, -math.pi / 2, 0.0, math.pi])
         z = r.choice([1, -1]) * math.sqrt(max(0.0, 1 - s * s))
         return unit([s * math.cos(phi), s * math.sin(phi), z])
@@ -640,10 +640,11 @@ def oracle(c, a):
             mag += math.sqrt(nsq(q))
         res = math.sqrt(nsq([t - x for t, x in zip(tot, pin)]))
         if res > MOM_TOL * mag:
+            # signatures of the two repaired defects: only while the tree still shows them
             sig = None
-            if m == "eplusgg" and c.E > 0:
+            if m == "eplusgg" and c.E > 0 and not EP_FIXED[0]:
                 sig = "eplusgg-second-gamma-direction-ignores-first-gamma"
-            elif small_branch_neg_y(c.dir):
+            elif small_branch_neg_y(c.dir) and m != "eplusgg":
                 sig = "rotate-small-sintheta-branch-drops-sign-of-y"
             bad.append(("momentum not conserved: |sum p_out - p_in| = %.3g of %.3g" % (res, mag), sig))
     return bad
